@@ -67,6 +67,10 @@ impl FileMetadata {
         if allowed_seeks < 100 {
             allowed_seeks = 100;
         }
+        #[cfg(raindb_verif)]
+        if allowed_seeks == 100 {
+            allowed_seeks = raindb_verif_rt::knob("min_allowed_seeks", 100) as i64;
+        }
 
         self.file_size = file_size;
         self.allowed_seeks = Some(Arc::new(RwLock::new(allowed_seeks)));
